@@ -942,6 +942,11 @@ def gen_definitions(thorough):
     add(D('struct', 'named', named_members([('assoc', 'T', False), I('u8')]), generics=[T], where=['T: Tr'], bounds="T::A: TypeInfo + 'static", skip_params=['T'], inst=u8, noinfo_inst=noinfo_tr), 'bounds(T::A: ..) + skip_type_params(T), T: Tr in the where clause of the type')
     add(D('struct', 'named', named_members([PARAM('T'), PARAM('U')]), generics=[T, U], where=['U: Clone'], bounds="T: TypeInfo + 'static, U: TypeInfo + 'static", inst=u8), 'bounds for both + where clause on the type')
     add(D('enum', variants=[V('A', 'tuple', tuple_members([PARAM('T')])), V('B', 'unit')], generics=[T], bounds="T: TypeInfo + 'static", inst=u8), 'bounds on enum')
+    # a skipped parameter that is ALSO named in the custom bounds (with a bound other than TypeInfo) stays skipped
+    add(D('struct', 'named', named_members([('assoc', 'T', False), I('u8')]), generics=[('T', 'Tr', None)], bounds="T: Tr + 'static, T::A: TypeInfo + 'static", skip_params=['T'], inst=u8, noinfo_inst=noinfo_tr), 'bounds(T: Tr, T::A: TypeInfo) + skip_type_params(T)')
+    add(D('struct', 'named', named_members([PARAM('U'), PH(PARAM('T'))]), generics=[T, U], bounds="U: TypeInfo + 'static, T: Send", skip_params=['T'], inst=u8, noinfo_inst=noinfo), 'bounds(U: TypeInfo, T: Send) + skip_type_params(T)')
+    add(D('enum', variants=[V('A', 'tuple', tuple_members([PH(PARAM('T'))])), V('B', 'tuple', tuple_members([PARAM('U')]))], generics=[T, U], bounds="T: Sized, U: TypeInfo + 'static", skip_params=['T'], inst=u8, noinfo_inst=noinfo), 'enum: bounds(T: Sized, U: TypeInfo) + skip_type_params(T)')
+    add(D('struct', 'tuple', tuple_members([PH(PARAM('T')), PH(PARAM('U'))]), generics=[T, U], bounds="T: 'static, U: 'static", skip_params=['T', 'U'], inst=u8, noinfo_inst={'T': NAMED('NoInfo'), 'U': NAMED('NoInfo')}), "bounds(T: 'static, U: 'static) + skip_type_params(T, U)")
     # compact members
     def cm(ty, name=None):
         m = M(ty, name)
